@@ -31,12 +31,20 @@ LEVEL_TEXT = (
     "recursion equals the harmonics for every l) and the phi-derivative formula for every l; these clauses are decided "
     "by exploration: 50-digit mpmath evaluation of the definition, the addition theorem with mpmath.legendre, 50-digit "
     "numerical derivatives. Tie to the code: differential run of both library implementations against the model "
-    "(l_max <= 20 quick, <= 60 thorough; through C02 on whole point sets up to degree 75)."
+    "(l_max <= 20 quick, <= 60 thorough; through C02 on whole point sets up to degree 75). "
+    "Round 3: generate_real_spherical_harmonics_scipy is carried statement by statement into Gen/HarmonicsScipy.lean (guards, "
+    "the angle reduction under np.any(outside), SciPy's sph_harm_y_all as a named primitive with a hand-written contract, the phase "
+    "array, the loop with row_start / row_end and the three stores, two of them strided) together with the shape requirements of "
+    "every statement; proved: the generated text equals the hand model ylmScipy (every scalar type, whatever np.empty contains, "
+    "whatever np.any is for the other points), every shape requirement holds, and - under the SciPy contract - it returns exactly "
+    "the rows of the generated recursion for every l_max and all angles ('both implementations agree'); the window of the angle "
+    "reduction ([0, pi] closed; azimuth shift exactly where sin(phi) < 0) and the windows of the cotangent rule / Jacobian "
+    "conventions are theorems about the regenerated constants."
 )
 TECHNIQUE = ("Lean 4 proof (loop invariant of the in-place recursion, closed forms l<=3, symmetry, HasDerivAt, "
              "round trip, Jacobian) + differential correspondence + mpmath (50 digits) exploration of the all-degree clauses")
 GEN = ["harmonics"]
-LEAN_MODULES = ["GridVerif.Props.C08", "GridVerif.Props.C08.Gen"]
+LEAN_MODULES = ["GridVerif.Props.C08", "GridVerif.Props.C08.Gen", "GridVerif.Props.C08.Scipy", "GridVerif.Props.C08.Windows"]
 THEOREMS = [
     "GridVerif.C08.row_index_bij",
     "GridVerif.C08.ylm_rows_spec",
@@ -64,6 +72,11 @@ THEOREMS = [
     "GridVerif.C08.gen_cart_to_sph_eq_model",
     "GridVerif.C08.gen_jacobian_eq_model",
     "GridVerif.C08.accumulator_is_extended_precision",
+    "GridVerif.C08.gen_scipy_eq_model",
+    "GridVerif.C08.gen_scipy_guards_and_shapes",
+    "GridVerif.C08.scipy_agrees_with_recursion",
+    "GridVerif.C08.scipy_angle_window",
+    "GridVerif.C08.gen_threshold_windows",
 ]
 RULE = (
     "correspondence: generate_real_spherical_harmonics and generate_real_spherical_harmonics_scipy vs the Lean models "
@@ -81,7 +94,17 @@ RULE = (
     "ylmNorm and vs the definition with 2L+150 digits; both sides of the phi<0 / phi>pi branch, of |tan phi| = 1e-10 and of "
     "the Jacobian thresholds |r|, |phi| = 1e-10 (either sign); radii 1e-150..1e150 (1.4e154..5e307 and 1e-155..5e-324 as "
     "information: float range of the norm); convert_cart_to_sph also vs the generated model genCartToSph. Rejections of "
-    "undocumented containers/shapes are recorded as tags, not failures"
+    "undocumented containers/shapes are recorded as tags, not failures. Round 3: the generated definitions at Float "
+    "(genScipy with the caller's np.any flag and with its shape requirements, genYlm, genSolid, genConvDeriv) vs the library and "
+    "the contract sphHarmYAll vs scipy.special.sph_harm_y_all (angles inside and outside [0, pi]); both sides within 1.01 and 100 "
+    "of the Jacobian thresholds with the true gradient required from 1.01e-10 on; points at one ulp from an O(1) / far centre; "
+    "the centre itself, the origin about a non-zero centre, points on the axes / in the coordinate planes through the centre "
+    "carried through convert_cart_to_sph into solid_harmonics (vs the Cartesian definition) and into the derivative routine; "
+    "centres translated by 2^10..2^20 (exact shifts, answers bit-identical to the untranslated ones); solid harmonics at "
+    "r = 1e-300..1e12 row-wise relative to r^l; azimuth / polar angles near 2^10..2^20; results modified in place by the caller "
+    "before the next call; the routines after one another on shared arrays; empty point arrays; polar angles outside [0, pi] "
+    "within 1e-12..1e-4 of a pole (both routines vs the model and vs the definition: the reduction of the SciPy-based routine, "
+    "arccos(cos(phi)) until c2ff251, lost up to eight digits there)"
 )
 TRUSTED_BASE = [
     "Lean 4.33 kernel; axioms propext, Classical.choice, Quot.sound only (audited per theorem)",
@@ -95,6 +118,11 @@ TRUSTED_BASE = [
     "(exercised by the correspondence at angles with sin(phi) of either sign, not proved)",
     "NumPy elementwise semantics (the model is written for one point); long double vs double rounding not modelled",
     "mpmath 50-digit arithmetic and mpmath.legendre for the exploration clauses",
+    "contract for scipy.special.sph_harm_y_all (Model/HarmonicsSciPy.lean: table [l][j], orders 0..m then -m..-1, "
+    "Y_l^0 = Y_l0, Y_l^k = (-1)^k (Y_lk + i Y_l,-k)/sqrt2 from (cos phi, |sin phi|)), the NumPy primitives ones / empty / "
+    "strided slice store (setSlice, sliceCount) / complex * real of the translation of generate_real_spherical_harmonics_scipy; "
+    "np.any(outside) enters as a Boolean parameter (true whenever the point itself is outside); compared with SciPy / the "
+    "library on every run (C08.sphHarmYAll, C08.genScipy)",
 ]
 ASSUMPTIONS = [
     "theta is the azimuth, phi the polar angle (docstrings); inputs are finite floats (NaN/inf not modelled)",
@@ -128,7 +156,16 @@ def angle_set(ctx: Ctx, nrand: int):
     nx = math.nextafter
     for p in (nx(PI, 4.0), nx(PI, 0.0), -0.0, -5e-324, 5e-324, 2 * PI, nx(2 * PI, 7.0), -2 * PI, 4 * PI, -3 * PI):
         out.append((u(-7, 14), p, "phi-branch-boundary"))
+    # round 3, class 7: within a factor 1.01 / 100 (and within 1e-12) of either end of the window [0, pi] of the angle reduction
+    for p in (PI + 1e-12, PI - 1e-12, PI * 1.01, PI * 0.99, -1e-12, 1e-12, -1e-2 * u(1, 2), PI + 1e-2 * u(1, 2)):
+        out.append((u(-7, 14), p, "phi-branch-window"))
+    # outside the window and within 1e-12 .. 1e-4 of a pole: the reduction of the SciPy-based routine must keep its digits there
+    # (arccos(cos(phi)) lost up to eight, repaired in c2ff251: arctan2(|sin(phi)|, cos(phi)))
+    out += _outside_near_pole_angles(ctx, 3)
     out += [(-0.0, u(0.1, 3.0), "theta-boundary"), (2 * PI, u(0.1, 3.0), "theta-boundary"), (-PI, u(0.1, 3.0), "theta-boundary")]
+    # angles far from the principal range (round 3, class 8): near 2^10 .. 2^20, either sign
+    out += [(2.0 ** r.choice([10, 14, 20]) + u(0, 7), u(0.1, 3.0), "theta-far"), (-(2.0 ** r.choice([10, 14, 20])) - u(0, 7), -u(0.1, 3.0), "theta-far"),
+            (u(0, 2 * PI), 2.0 ** r.choice([10, 14, 20]) + u(0, 7), "phi-far"), (u(-7, 7), -(2.0 ** r.choice([10, 14, 20])) - u(0, 7), "phi-far")]
     for _ in range(nrand):
         out.append((u(0, 2 * PI), u(0.05, PI - 0.05), "principal"))
         out.append((u(-7, 14), u(-4, 8), "any"))
@@ -304,7 +341,10 @@ def _variants(ctx: Ctx):
             _step("", f"fn({L2}, A, Ap)", L2, ta, pa, same=2),
             _step("", f"fn({L}, Bp, B)", L, p2, t2),
             _step("", f"fn(0, A, Ap)", 0, ta, pa),
-            _step("", f"fn({L}, A, Ap)", L, ta, pa, same=0)]))
+            _step("", f"fn({L}, A, Ap)", L, ta, pa, same=0),
+            # the array handed out is the caller's: modified in place, then the same call again
+            _step(f"R = fn({L}, A, Ap); R[...] = 5.0", f"fn({L}, A, Ap)", L, ta, pa, same=0, cls="result-modified"),
+            _step(f"R = fn({L2}, B, Bp); R *= -1.0; R2 = fn({L}, A, A); R2[...] = np.nan", f"fn({L2}, B, Bp)", L2, t2, p2, same=9, cls="result-modified")]))
 
     # solid harmonics: rows (r, theta, phi)
     sf = [[u(0.3, 2.0), tf[k], pf[k]] for k in range(4)] + [[0.0, tf[0], pf[1]], [1.0, tf[1], pf[0]]]
@@ -338,7 +378,9 @@ def _variants(ctx: Ctx):
         _step("", "fn(3, B)", 3, t2, p2, r2, same=1),
         _step("A[:] = B", "fn(3, A)", 3, t2, p2, r2, same=1, cls="in-place-edit"),
         _step(f"A[:] = {sa!r}", "fn(3, A)", 3, ta, pa, ra, same=0, cls="in-place-edit"),
-        _step("", "fn(4, A)", 4, ta, pa, ra, same=2)]))
+        _step("", "fn(4, A)", 4, ta, pa, ra, same=2),
+        _step("R = fn(3, A); R[...] = 5.0", "fn(3, A)", 3, ta, pa, ra, same=0, cls="result-modified"),
+        _step("R = fn(4, A); R *= -1.0", "fn(4, A)", 4, ta, pa, ra, same=2, cls="result-modified")]))
     return out
 
 
@@ -623,6 +665,13 @@ def _c2s_variants(ctx: Ctx):
         cs = [x * s for x in cf]
         pts = [[x * s + y for x, y in zip(row, cs)] for row in base]
         one(f"radius:{s:g},centre", P(pts) + f"; c = np.array({cs!r})", "fn(P, c)", pts, cs, atol=4e-16 * max(abs(x) for x in cs + sum(pts, [])))
+    # round 3, class 7: the repair `phi[r == 0.0] = 0.0` is for the centre only - points one ulp (and 2^-40) away from an O(1)
+    # centre and from a centre far from the origin (every difference point - centre is exact)
+    nxa = lambda x, sg: math.nextafter(x, sg * math.inf)
+    for cname, ce in (("O(1)", [1.5, -2.25, 3.0]), ("far", [2.0 ** 20 + 0.5, -(2.0 ** 14), 2.0 ** 10 + 0.25])):
+        near = [[nxa(ce[0], 1), ce[1], ce[2]], [ce[0], nxa(ce[1], -1), ce[2]], [ce[0], ce[1], nxa(ce[2], 1)], [ce[0], ce[1], nxa(ce[2], -1)],
+                [nxa(ce[0], -1), nxa(ce[1], 1), nxa(ce[2], 1)], list(ce), [ce[0] + 2.0 ** -30, ce[1], ce[2] - 2.0 ** -30], [ce[0], ce[1] + 2.0 ** -25, ce[2]]]
+        one(f"near-centre:{cname}", P(near) + f"; c = np.array({ce!r})", "fn(P, c)", near, ce)
     small = [[x * 1e-9 + y for x, y in zip(row, cf)] for row in base]
     one("radius:1e-09,centre-O(1)", P(small) + f"; c = np.array({cf!r})", "fn(P, c)", small, cf)  # P - c is exact (Sterbenz)
     for s in (1.4e154, 1e155, 1e200, 5e307, 1e-155, 1e-160, 1e-162, 1e-200, 5e-324):
@@ -646,7 +695,9 @@ def _c2s_variants(ctx: Ctx):
         st("", "fn(P.T[:, :3], P.T[:, 0])", np.array(pf).T[:, :3].tolist(), np.array(pf).T[:, 0].tolist(), cls="centre-is-column-of-points"),
         st("P[:] = Q", "fn(P, c)", qf, cf, same=2, cls="in-place-edit"),
         st(f"P[:] = {pf!r}; c[:] = c2", "fn(P, c)", pf, c2, same=1, cls="in-place-edit"),
-        st(f"c[:] = {cf!r}", "fn(P, c)", pf, cf, same=0, cls="in-place-edit")]))
+        st(f"c[:] = {cf!r}", "fn(P, c)", pf, cf, same=0, cls="in-place-edit"),
+        st("R = fn(P, c); R[...] = -1.0", "fn(P, c)", pf, cf, same=0, cls="result-modified"),
+        st("R = fn(P, c2); R[:, 2] = 0.0", "fn(P, c2)", pf, c2, same=1, cls="result-modified")]))
     return out
 
 
@@ -677,7 +728,7 @@ def _run_c2s(ctx: Ctx, ut, kind, mp=None):
         raw, src, pos = [], [], {}
         for k, s in enumerate(v["steps"]):
             cls = s["cls"] or v["cls"]
-            tag = f"variant:c2s:{cls.split(':')[0] if cls.startswith(('radius', 'float-range')) else cls}"  # one tag for all scales
+            tag = f"variant:c2s:{cls.split(':')[0] if cls.startswith(('radius', 'float-range', 'near-centre')) else cls}"  # one tag for all scales
             key = f"variant:c2s:{cls}" if kind == "corr" else f"utils.convert_cart_to_sph:{cls}"
             ctx.count([kind, "c2s", cls, k, s["pre"], s["call"]], nontrivial=not v.get("soft"), tag=tag)
             if s["pre"]:
@@ -861,6 +912,442 @@ def _oracle_high_degree(ctx: Ctx, ut, mp):
                                      witness={"l_max": L, "r": r, "theta": t, "phi": p, "l": l, "m": m, "component": what, "got": got, "want": want},
                                      snippet=SNIP_VAR.format(fname=_FN[fn], dps=dps, pre="", call=call, index=idx.format(row=row, j=0), l=l, m=m, r=r, t=t, p=p,
                                                              j=0, want=_WANT[what], tol=tol, what=f"{what} row (l={l}, m={m}) for l_max={L}"))
+
+
+
+# --------------------------------------------------------------------------------------
+# round 3: the generated definitions at Float, special points under a non-trivial frame, far centres, scaled data,
+# thresholds of the Jacobian, results handed out and modified by the caller, the routines after one another
+# --------------------------------------------------------------------------------------
+def _corr_generated(ctx: Ctx, ut, angs):
+    """The definitions *generated from the source* evaluated at Float by the driver against the library:
+    `genScipy` (generate_real_spherical_harmonics_scipy, with the flag np.any(outside) of the caller's array, and its shape
+    requirements), `sphHarmYAll` (the contract for SciPy's primitive) against scipy.special.sph_harm_y_all, `genYlm`, `genSolid`,
+    `genConvDeriv`."""
+    from scipy.special import sph_harm_y_all
+    r = ctx.rng
+    principal = [a for a in angs if 0.0 <= a[1] <= PI][:8]
+    # outside-near-pole: the reduction arctan2(|sin(phi)|, cos(phi)) (c2ff251) as carried by the generated text
+    sets = [("mixed", angs), ("principal-only", principal), ("outside-near-pole", _outside_near_pole_angles(ctx, 3))] \
+        + [("single:" + a[2], [a]) for a in r.sample(angs, 6)]
+    for L in [0, 1, 2, 3, 5, 8, r.randrange(9, 17)] + ([20] if ctx.thorough else []):
+        for sname, aset in sets:
+            th, ph = np.array([a[0] for a in aset]), np.array([a[1] for a in aset])
+            flag = int(bool(np.any((ph < 0) | (ph > np.pi))))
+            lib = np.asarray(ut.generate_real_spherical_harmonics_scipy(L, th, ph), dtype=float)
+            ans = driver_batch([f"C08.genScipy {flag} {L} {f2b(t)} {f2b(p)}" for t, p, _ in aset]
+                               + [f"C08.genScipyFits {flag} {L} {f2b(t)} {f2b(p)}" for t, p, _ in aset])
+            for j, (t, p, tag) in enumerate(aset):
+                ctx.count(["genScipy", L, sname, t, p], nontrivial=L >= 2, tag=f"genScipy:{sname.split(':')[0]}:{tag}")
+                rows = _rows(ans[j])
+                if ans[j] == "bad-op" or rows is None or len(rows) != (L + 1) ** 2:
+                    ctx.fail("corr", "genScipy:shape", f"the driver answered {ans[j][:60]} for C08.genScipy {flag} {L} (theta={t!r}, phi={p!r})")
+                    continue
+                if ans[len(aset) + j] != "ok 1":
+                    ctx.fail("corr", "genScipy:fits", f"a shape requirement of the generated generate_real_spherical_harmonics_scipy is false at "
+                             f"l_max={L}, theta={t!r}, phi={p!r}: {ans[len(aset) + j]}")
+                d, i = _maxdiff(rows, lib[:, j])
+                if not d <= 1e-13 * (L + 1) * (1.0 + abs(t)) + 1e-14:
+                    l, m = py_lm_order(L)[i]
+                    ctx.fail("corr", "genScipy", f"generate_real_spherical_harmonics_scipy(l_max={L}, theta={t!r}, phi={p!r}) row {i} (l={l}, m={m}) "
+                             f"called on the angle set '{sname}' (np.any(outside) = {bool(flag)}): implementation {lib[i, j]!r}, definition generated "
+                             f"from the source {rows[i]!r}",
+                             witness={"routine": "scipy", "l_max": L, "theta": t, "phi": p, "row": i, "l": l, "m": m, "impl": float(lib[i, j]),
+                                      "model": float(rows[i]), "angle_class": tag, "angle_set": sname})
+    # the contract for scipy.special.sph_harm_y_all: whole table, angles inside and outside [0, pi]
+    for n in (0, 1, 2, 4, 7):
+        aset = r.sample(angs, 8)
+        tbl = sph_harm_y_all(n, n, np.array([a[1] for a in aset]), np.array([a[0] for a in aset]))
+        ans = driver_batch([f"C08.sphHarmYAll {n} {n} {f2b(p)} {f2b(t)}" for t, p, _ in aset])
+        for j, (t, p, tag) in enumerate(aset):
+            ctx.count(["sphHarmYAll", n, t, p], nontrivial=n >= 2, tag=f"sphHarmYAll:{tag}")
+            got = _rows(ans[j])
+            want = np.stack([tbl[:, :, j].real, tbl[:, :, j].imag], axis=-1).ravel()
+            d, i = _maxdiff(got, want) if got is not None else (float("inf"), -1)
+            if not d <= 1e-13 * (n + 1) * (1.0 + abs(t)) + 1e-14:
+                ctx.fail("corr", "sphHarmYAll", f"contract for scipy.special.sph_harm_y_all({n}, {n}, phi={p!r}, theta={t!r}): entry {i // 2} "
+                         f"(l={i // 2 // (2 * n + 1)}, column {i // 2 % (2 * n + 1)}, {'imag' if i % 2 else 'real'}): SciPy {want[i] if i >= 0 else None!r}, "
+                         f"contract {got[i] if got is not None and i >= 0 else ans[j][:40]!r}", witness={"n": n, "theta": t, "phi": p, "entry": i})
+    # the other generated routines (proved equal to the hand model for every scalar type; run for completeness)
+    aset = r.sample(angs, 6)
+    th, ph = np.array([a[0] for a in aset]), np.array([a[1] for a in aset])
+    for L in (0, 1, 3, 6):
+        lib = np.asarray(ut.generate_real_spherical_harmonics(L, th, ph), dtype=float)
+        rs = [0.0, 1.0, r.uniform(0, 3), 1e-6, 1e6, r.uniform(1, 10)]
+        sol = np.asarray(ut.solid_harmonics(L, np.array([[rr, a[0], a[1]] for rr, a in zip(rs, aset)])), dtype=float)
+        ans = driver_batch([f"C08.genYlm {L} {f2b(t)} {f2b(p)}" for t, p, _ in aset]
+                           + [f"C08.genSolid {L} {f2b(rr)} {f2b(a[0])} {f2b(a[1])}" for rr, a in zip(rs, aset)])
+        for j, (t, p, tag) in enumerate(aset):
+            for name, a, w, scale in (("genYlm", ans[j], lib[:, j], 1.0), ("genSolid", ans[len(aset) + j], sol[:, j], max(1.0, rs[j] ** L))):
+                ctx.count([name, L, t, p, rs[j]], nontrivial=L >= 2, tag=name)
+                rows = _rows(a)
+                d, i = _maxdiff(rows, w) if rows is not None else (float("inf"), -1)
+                if not d <= 1e-12 * (L + 1) * (1 + abs(t)) * scale:
+                    ctx.fail("corr", name, f"{name}(l_max={L}, theta={t!r}, phi={p!r}" + (f", r={rs[j]!r}" if name == "genSolid" else "") + f") row {i}: "
+                             f"implementation {w[i] if i >= 0 else None!r}, generated definition {rows[i] if rows is not None and i >= 0 else a[:40]!r}",
+                             witness={"routine": "recursion" if name == "genYlm" else "solid", "l_max": L, "theta": t, "phi": p, "r": rs[j], "row": i})
+
+
+def _outside_near_pole_angles(ctx: Ctx, n):
+    """Polar angles outside [0, pi] within 1e-12 .. 1e-4 of a pole (-x, pi + x, 2 pi + x, -pi - x, ...)."""
+    rg = ctx.rng
+    out = []
+    for x in [1e-12, 1e-9, 1e-8, 3e-8, 1e-6] + [10 ** rg.uniform(-11, -4) for _ in range(n)]:
+        p = rg.choice([-x, PI + x, 2 * PI + x, -PI - x, -2 * PI - x, 3 * PI + x])
+        out.append((rg.uniform(-7, 14), p, "outside-near-pole"))
+    return out
+
+
+def _oracle_outside_near_pole(ctx: Ctx, ut, mp, large):
+    """Polar angles outside [0, pi] within 1e-12 .. 1e-4 of a pole: both routines against the definition, to the accuracy they
+    have everywhere else (the SciPy-based routine reduced such angles with arccos(cos(phi)) - ill-conditioned at the poles, absolute
+    error up to 1.5e-8 in the angle, ~1e-8 * l^1.5 in the rows with |m| = 1 - until c2ff251; the input angle itself is exact)."""
+    angs = _outside_near_pole_angles(ctx, 3 if not large else 10)
+    for L in (1, 8, 20):
+        th, ph = np.array([a[0] for a in angs]), np.array([a[1] for a in angs])
+        A = np.asarray(ut.generate_real_spherical_harmonics(L, th, ph), dtype=float)
+        B = np.asarray(ut.generate_real_spherical_harmonics_scipy(L, th, ph), dtype=float)
+        lms = py_lm_order(L)
+        for j, (t, p, tag) in enumerate(angs):
+            ctx.count(["oracle", "outside-near-pole", L, t, p], nontrivial=True, tag="oracle:outside-near-pole")
+            want = np.array([float(mp_ylm(mp, l, m, t, p)) for l, m in lms])
+            tol = 4e-13 * (L + 1) * (1 + abs(t))
+            for name, got in (("generate_real_spherical_harmonics", A[:, j]), ("generate_real_spherical_harmonics_scipy", B[:, j])):
+                d, i = _maxdiff(want, got)
+                if not d <= tol:
+                    l, m = lms[i]
+                    ctx.fail("oracle", f"utils.{name}:definition:outside-principal-range",
+                             f"{name}(l_max={L}, theta={t!r}, phi={p!r}) row (l={l}, m={m}) = {float(got[i])!r}, definition (50 digits) "
+                             f"{float(want[i])!r} (polar angle outside [0, pi], {min(abs(p - k * PI) for k in range(-3, 5)):.1e} from a pole)",
+                             witness={"l_max": L, "theta": t, "phi": p, "l": l, "m": m, "got": float(got[i]), "want": float(want[i])},
+                             snippet=SNIP_DEF.format(fn=name, L=L, theta=t, phi=p, l=l, m=m, tol=tol))
+
+
+def _jacobian_threshold_cases(ctx: Ctx):
+    """Both sides within a factor 1.01 and 100 of |r| = 1e-10 and of |phi| = 1e-10 (either sign)."""
+    out = []
+    u = ctx.rng.uniform
+    for x in (0.99e-10, 1.01e-10, 1e-12, 1e-8):
+        for sg in (1.0, -1.0):
+            out += [([u(-2, 2) for _ in range(3)], sg * x, u(-7, 7), u(0.05, 3.0), "r-threshold-window"),
+                    ([u(-2, 2) for _ in range(3)], sg * x, u(-7, 7), -u(0.05, 3.0), "r-threshold-window"),
+                    ([u(-2, 2) for _ in range(3)], u(0.1, 5), u(-7, 7), sg * x, "phi-threshold-window"),
+                    ([u(-2, 2) for _ in range(3)], -u(0.1, 5), u(-7, 7), sg * x, "phi-threshold-window"),
+                    ([u(-2, 2) for _ in range(3)], sg * x, u(-7, 7), sg * ctx.rng.choice([0.99e-10, 1.01e-10, 1e-8]), "both-thresholds-window")]
+    return out
+
+
+SNIP_GRAD = """import numpy as np, mpmath as mp
+from grid.utils import convert_derivative_from_spherical_to_cartesian as f
+mp.mp.dps = 50
+g, r, t, p = {g!r}, {r!r}, {t!r}, {p!r}   # Cartesian gradient of a linear function, spherical coordinates of the point
+R, T, P = mp.mpf(r), mp.mpf(t), mp.mpf(p)
+J = [[mp.cos(T)*mp.sin(P), mp.sin(T)*mp.sin(P), mp.cos(P)],
+     [-R*mp.sin(T)*mp.sin(P), R*mp.cos(T)*mp.sin(P), mp.mpf(0)],
+     [R*mp.cos(T)*mp.cos(P), R*mp.sin(T)*mp.cos(P), -R*mp.sin(P)]]
+fr, ft, fp = (float(sum(mp.mpf(a)*b for a, b in zip(g, row))) for row in J)   # chain rule, 50 digits, rounded once
+got = np.asarray(f(fr, ft, fp, r, t, p), dtype=float)
+assert all(abs(a - b) <= {tol!r} for a, b in zip(got, g)), f'gradient {{g}} through its spherical derivatives at (r, theta, phi) = ({{r}}, {{t}}, {{p}}): routine {{got.tolist()}}'
+"""
+
+
+def _oracle_gradient_near_thresholds(ctx: Ctx, ut, mp, large):
+    """The conventions of convert_derivative_from_spherical_to_cartesian apply only below the code's thresholds
+    (|r| < 1e-10: no angular part; |phi| < 1e-10: no azimuthal part): from 1.01e-10 on the routine must return the true
+    gradient.  Linear functions: gradient g, spherical derivatives by the chain rule with 50 digits (rounded once)."""
+    rg = ctx.rng
+    cases = []
+    for x in [1.01e-10, 2e-10, 1e-8] + [10 ** rg.uniform(-9.9, -3) for _ in range(2 if not large else 10)]:
+        sg = rg.choice([1.0, -1.0])
+        cases += [(sg * x, rg.uniform(-7, 7), rg.choice([1.0, -1.0]) * rg.uniform(0.3, 2.8), "r-small"),
+                  (rg.uniform(0.2, 3), rg.uniform(-7, 7), sg * x, "phi-small"),
+                  (sg * x, rg.uniform(-7, 7), rg.choice([1.01e-10, 3e-9, 1e-6]), "both-small")]
+    for r, t, p, kind in cases:
+        for g in ([1.0, 0.0, 0.0], [0.0, 1.0, 0.0], [0.0, 0.0, 1.0], [rg.uniform(-2, 2) for _ in range(3)]):
+            with mp.workdps(50):
+                R, T, P = mp.mpf(r), mp.mpf(t), mp.mpf(p)
+                J = [[mp.cos(T) * mp.sin(P), mp.sin(T) * mp.sin(P), mp.cos(P)],
+                     [-R * mp.sin(T) * mp.sin(P), R * mp.cos(T) * mp.sin(P), mp.mpf(0)],
+                     [R * mp.cos(T) * mp.cos(P), R * mp.sin(T) * mp.cos(P), -R * mp.sin(P)]]
+                fr, ft, fp = (float(sum(mp.mpf(a) * b for a, b in zip(g, row))) for row in J)
+            got = np.asarray(ut.convert_derivative_from_spherical_to_cartesian(fr, ft, fp, r, t, p), dtype=float)
+            ctx.count(["gradient-near-threshold", kind, g, r, t, p], nontrivial=True, tag=f"oracle:gradient:{kind}")
+            # the three inputs carry one rounding each (relative 1.1e-16), amplified by at most 1/|r sin phi| * |d x/d angle| = O(1)
+            tol = 1e-9 * max(1.0, max(abs(v) for v in g))
+            if not all(abs(a - b) <= tol for a, b in zip(got, g)):
+                ctx.fail("oracle", f"utils.convert_derivative_from_spherical_to_cartesian:gradient:{kind}",
+                         f"gradient {g} of a linear function through its spherical derivatives at (r,theta,phi)=({r!r},{t!r},{p!r}) "
+                         f"(above the thresholds 1e-10 of the routine): routine {got.tolist()}",
+                         witness={"grad": g, "r": r, "theta": t, "phi": p, "got": got.tolist()}, snippet=SNIP_GRAD.format(g=g, r=r, t=t, p=p, tol=tol))
+                break
+
+
+def _special_points(ctx: Ctx):
+    """[(centre, [(point, tag)])]: points coinciding with special points of the frame about a non-trivial centre — the
+    centre itself, the Cartesian origin, points on the three axes through the centre (both directions), in the three
+    coordinate planes through it, one ulp away from it — for an O(1) centre, a centre with a zero coordinate and a far one.
+    All coordinates are dyadic, so every difference point - centre is exact."""
+    rg = ctx.rng
+    q = lambda lo, hi: rg.randrange(int(lo * 64), int(hi * 64) + 1) / 64.0
+    out = []
+    for c in ([q(-3, 3) or 0.5, q(-3, 3) or -0.25, q(-3, 3) or 1.5], [0.0, q(0.5, 3), -q(0.5, 3)],
+              [2.0 ** rg.choice([10, 14, 20]) + q(0, 1), -(2.0 ** rg.choice([10, 14, 20])), q(-3, 3)]):
+        d = q(0.25, 4)
+        pts = [(list(c), "centre-itself"), ([0.0, 0.0, 0.0], "origin")]
+        for k, ax in enumerate("xyz"):
+            for sg in (1.0, -1.0):
+                p = list(c)
+                p[k] += sg * d
+                pts.append((p, f"on-{ax}-axis-through-centre"))
+                p = list(c)
+                p[k] = math.nextafter(p[k], sg * math.inf)
+                pts.append((p, "one-ulp-from-centre"))
+            p = [c[i] + q(-3, 3) for i in range(3)]
+            p[k] = c[k]
+            pts.append((p, f"in-plane-{ax}=centre"))
+        p = [math.nextafter(c[i], math.inf) for i in range(3)]
+        pts.append((p, "one-ulp-from-centre"))
+        pts.append(([c[i] + q(-3, 3) for i in range(3)], "generic"))
+        out.append((c, pts))
+    return out
+
+
+SNIP_PIPE = """import warnings; warnings.filterwarnings('ignore')
+import numpy as np, mpmath as mp, math
+from grid.utils import convert_cart_to_sph, solid_harmonics
+mp.mp.dps = 60
+q, c, L, l, m = {q!r}, {c!r}, {L}, {l}, {m}
+sph = convert_cart_to_sph(np.array([q]), np.array(c))
+got = float(np.asarray(solid_harmonics(L, sph), dtype=float)[{row}, 0])
+x, y, z = (mp.mpf(a) - mp.mpf(b) for a, b in zip(q, c))
+r = mp.sqrt(x*x + y*y + z*z); rho = mp.sqrt(x*x + y*y); a = abs(m)
+if r == 0:
+    want = mp.mpf(1 if l == 0 else 0)
+else:
+    az = mp.atan2(y, x) if rho != 0 else mp.mpf(0)
+    s = sum(mp.mpf((-1)**k * math.comb(l, k) * math.comb(2*l-2*k, l) * math.factorial(l-2*k)) / (math.factorial(l-2*k-a) * 2**l) * (z/r)**(l-2*k-a)
+            for k in range((l-a)//2 + 1))
+    want = r**l * mp.sqrt(mp.factorial(l-a)/mp.factorial(l+a)) * (rho/r)**a * s * (1 if m == 0 else mp.sqrt(2) * (mp.cos(a*az) if m > 0 else mp.sin(a*az)))
+assert abs(got - float(want)) <= {tol!r}, f'solid harmonic (l={{l}}, m={{m}}) of the point {{q}} about the centre {{c}}: solid_harmonics(convert_cart_to_sph(...)) = {{got!r}}, definition (60 digits) {{float(want)!r}}'
+"""
+
+
+def _mp_solid_cart(mp, l, m, d):
+    """Regular solid harmonic R_lm = sqrt(4 pi/(2l+1)) r^l Y_lm of the Cartesian vector d (mp numbers), from the definition."""
+    x, y, z = d
+    r = mp.sqrt(x * x + y * y + z * z)
+    if r == 0:
+        return mp.mpf(1 if l == 0 else 0)
+    rho = mp.sqrt(x * x + y * y)
+    az = mp.atan2(y, x) if rho != 0 else mp.mpf(0)
+    a = abs(m)
+    s = mp.mpf(0)
+    for e, c in _legendre_coeffs(l, a):
+        s += mp.mpf(c.numerator) / mp.mpf(c.denominator) * (z / r) ** e
+    v = r ** l * mp.sqrt(mp.factorial(l - a) / mp.factorial(l + a)) * (rho / r) ** a * s
+    return v if m == 0 else v * mp.sqrt(2) * (mp.cos(a * az) if m > 0 else mp.sin(a * az))
+
+
+def _special_point_pipeline(ctx: Ctx, ut, kind, mp=None):
+    """Points at special positions of a non-trivial frame through convert_cart_to_sph into solid_harmonics and into the
+    derivative routine.  corr: every stage against the model at the very floats the previous stage returned.
+    oracle: solid harmonics against the definition evaluated on the Cartesian vector point - centre (60 digits); the
+    derivative routine against the definition at the angles it was given."""
+    L = 4
+    lms = py_lm_order(L)
+    for c, pts in _special_points(ctx):
+        P = np.array([p for p, _ in pts])
+        sph = np.asarray(ut.convert_cart_to_sph(P, np.array(c)), dtype=float)
+        S = np.asarray(ut.solid_harmonics(L, sph), dtype=float)
+        D = np.asarray(ut.generate_derivative_real_spherical_harmonics(L, sph[:, 1].copy(), sph[:, 2].copy()), dtype=float)
+        far = max(abs(x) for x in c) > 100
+        if kind == "corr":
+            a1 = driver_batch(["C08.cartToSph " + " ".join(f2b(x) for x in list(p) + list(c)) for p, _ in pts])
+            a2 = driver_batch([f"C08.solid {L} {f2b(r)} {f2b(t)} {f2b(ph)}" for r, t, ph in sph])
+            a3 = driver_batch([f"C08.dYlm {L} {f2b(t)} {f2b(ph)}" for r, t, ph in sph])
+        for j, (p, tag) in enumerate(pts):
+            r, t, ph = (float(v) for v in sph[j])
+            ctx.count([kind, "special-point", c, p], nontrivial=True, tag=f"special-point:{'far-centre:' if far else ''}{tag}")
+            if kind == "corr":
+                T = Tokens(a1[j][3:]) if a1[j].startswith("ok ") else None
+                m1 = [T.flt(), T.flt(), T.flt()] if T else None
+                if m1 is None or not all(close(x, y, rtol=1e-13, atol=1e-15, scale=max(1.0, abs(y))) for x, y in zip(m1, (r, t, ph))):
+                    ctx.fail("corr", "special-point:cartToSph", f"convert_cart_to_sph({p}, center={c}) [{tag}] = {[r, t, ph]}, model {m1}",
+                             witness={"routine": "c2s", "point": p, "center": c, "impl": [r, t, ph], "model": m1})
+                rows = _rows(a2[j])
+                d, i = _maxdiff(rows, S[:, j]) if rows is not None else (float("inf"), -1)
+                if not d <= 1e-12 * (L + 1) * max(1.0, r ** L):
+                    ctx.fail("corr", "special-point:solid", f"solid_harmonics({L}, convert_cart_to_sph({p}, {c})) [{tag}] row {i}: implementation "
+                             f"{S[i, j] if i >= 0 else None!r}, model {rows[i] if rows is not None and i >= 0 else None!r}",
+                             witness={"routine": "solid", "l_max": L, "r": r, "theta": t, "phi": ph, "row": i, "point": p, "center": c})
+                if a3[j].startswith("ok "):
+                    T = Tokens(a3[j][3:])
+                    for which, mm, impl in (("theta", np.array(T.fvec()), D[0, :, j]), ("phi", np.array(T.fvec()), D[1, :, j])):
+                        d, i = _maxdiff(mm, impl)
+                        if not d <= 1e-12 * (L + 1) * max(1.0, float(np.nanmax(np.abs(impl)))):
+                            ctx.fail("corr", f"special-point:dYlm:{which}", f"generate_derivative_real_spherical_harmonics({L}, theta={t!r}, phi={ph!r})"
+                                     f"[{which}] at the angles of the point {p} about {c} [{tag}], row {i}: implementation {impl[i]!r}, model {mm[i]!r}",
+                                     witness={"routine": "deriv", "l_max": L, "theta": t, "phi": ph, "component": which, "row": i})
+                else:
+                    ctx.fail("corr", "dYlm:shape", f"dYlm({L}) answered {a3[j][:60]}")
+                continue
+            # oracle
+            with mp.workdps(60):
+                d3 = [mp.mpf(a) - mp.mpf(b) for a, b in zip(p, c)]
+                r0 = mp.sqrt(sum(x * x for x in d3))
+                # the polar angle from arccos(z/r) carries an absolute error of up to ~1e-8 next to the axis (information of round 2):
+                # exactly on the axis / at the centre it is exact, elsewhere the points are away from it
+                for l, m in lms:
+                    want = float(_mp_solid_cart(mp, l, m, d3))
+                    got = float(S[row_index(l, m), j])
+                    tol = 2e-12 * (L + 1) * max(float(r0) ** l, 1e-300)
+                    if not abs(got - want) <= tol:
+                        ctx.fail("oracle", f"utils.solid_harmonics:special-point:{tag}",
+                                 f"solid harmonic (l={l}, m={m}) of the point {p} about the centre {c} [{tag}]: "
+                                 f"solid_harmonics(convert_cart_to_sph(...)) = {got!r}, definition on the Cartesian vector (60 digits) {want!r}",
+                                 witness={"point": p, "center": c, "l": l, "m": m, "got": got, "want": want, "sph": [r, t, ph]},
+                                 snippet=SNIP_PIPE.format(q=p, c=c, L=L, l=l, m=m, row=row_index(l, m), tol=tol))
+                        break
+            _oracle_point(ctx, ut, mp, "deriv", L, t, ph, lms=[x for x in lms if x[0] in (1, 3)])
+
+
+def _far_centres(ctx: Ctx, ut, kind):
+    """Translation by exactly representable shifts 2^10 .. 2^20 (points and centre dyadic, so point + shift is exact):
+    convert_cart_to_sph(points + s, centre + s) must be bit for bit convert_cart_to_sph(points, centre), and so must the
+    solid harmonics computed from it."""
+    rg = ctx.rng
+    q = lambda lo, hi: rg.randrange(int(lo * 1024), int(hi * 1024) + 1) / 1024.0
+    for _ in range(ctx.n(3, 12)):
+        c = [q(-3, 3) for _ in range(3)]
+        pts = [[q(-5, 5) for _ in range(3)] for _ in range(5)] + [list(c), [c[0], c[1], c[2] + q(0.5, 2)], [c[0] + 2.0 ** -10, c[1], c[2]], [0.0, 0.0, 0.0]]
+        s = [rg.choice([1.0, -1.0]) * 2.0 ** rg.choice([10, 14, 17, 20]) for _ in range(3)]
+        P, C = np.array(pts), np.array(c)
+        Ps, Cs = P + np.array(s), C + np.array(s)
+        assert np.array_equal(Ps - np.array(s), P) and np.array_equal(Cs - np.array(s), C)
+        a = np.asarray(ut.convert_cart_to_sph(P, C))
+        b = np.asarray(ut.convert_cart_to_sph(Ps, Cs))
+        ctx.count([kind, "far-centre", c, s], nontrivial=True, tag="far-centre:translation")
+        if not np.array_equal(a, b, equal_nan=True):
+            j = int(np.argmax(np.any(a != b, axis=1)))
+            snippet = ("import numpy as np\nfrom grid.utils import convert_cart_to_sph\n"
+                       f"P, c, s = np.array({pts!r}), np.array({c!r}), np.array({s!r})   # P + s and c + s are exact\n"
+                       "a, b = convert_cart_to_sph(P, c), convert_cart_to_sph(P + s, c + s)\n"
+                       "assert np.array_equal(a, b, equal_nan=True), f'translated by {s.tolist()}: {b.tolist()} instead of {a.tolist()}'\n")
+            ctx.fail(kind, "far-centre:translation" if kind == "corr" else "utils.convert_cart_to_sph:translation",
+                     f"convert_cart_to_sph is not invariant under the exact translation {s}: point {pts[j]} about {c} -> {a[j].tolist()}, "
+                     f"translated -> {b[j].tolist()}", witness={"routine": "c2s", "point": Ps[j].tolist(), "center": Cs.tolist(), "shift": s,
+                                                                "untranslated": a[j].tolist(), "translated": b[j].tolist()},
+                     snippet=snippet if kind == "oracle" else None)
+        if kind == "corr":
+            ans = driver_batch(["C08.cartToSph " + " ".join(f2b(x) for x in list(p) + list(Cs)) for p in Ps])
+            for j, an in enumerate(ans):
+                T = Tokens(an[3:]) if an.startswith("ok ") else None
+                m1 = [T.flt(), T.flt(), T.flt()] if T else None
+                if m1 is None or not all(close(x, float(y), rtol=1e-13, atol=1e-15, scale=max(1.0, abs(float(y)))) for x, y in zip(m1, b[j])):
+                    ctx.fail("corr", "far-centre:cartToSph", f"convert_cart_to_sph({Ps[j].tolist()}, center={Cs.tolist()}) = {b[j].tolist()}, model {m1}",
+                             witness={"routine": "c2s", "point": Ps[j].tolist(), "center": Cs.tolist(), "impl": b[j].tolist(), "model": m1})
+
+
+def _scaled_solid(ctx: Ctx, ut, kind, mp=None):
+    """Radii over 1e-300 .. 1e12: every row of solid_harmonics compared *relative to its own scale* r^l."""
+    rg = ctx.rng
+    L = 5
+    lms = py_lm_order(L)
+    deg = np.array([float(l) for l, _ in lms])
+    for r in (1e-300, 1e-50, 1e-12, 1e-6, 1e6, 1e12, 10 ** rg.uniform(-12, 12)):
+        t, p = rg.uniform(-7, 7), rg.uniform(-3, 6)
+        S = np.asarray(ut.solid_harmonics(L, np.array([[r, t, p]])), dtype=float)[:, 0]
+        ctx.count([kind, "solid-scaled", r, t, p], nontrivial=True, tag="solid:scaled")
+        with np.errstate(under="ignore", over="ignore"):
+            scale = np.maximum(r ** deg, 5e-324)
+        if kind == "corr":
+            rows = _rows(driver_batch([f"C08.solid {L} {f2b(r)} {f2b(t)} {f2b(p)}"])[0])
+            refname = "model"
+        else:
+            with mp.workdps(50):
+                rows = np.array([float(mp.sqrt(4 * mp.pi / (2 * l + 1)) * mp.mpf(r) ** l * mp_ylm(mp, l, m, t, p)) for l, m in lms])
+            refname = "definition (50 digits)"
+        err = np.abs(S - rows) / scale if rows is not None else np.array([np.inf])
+        err[np.isnan(err)] = np.inf
+        i = int(np.argmax(err))
+        if not err[i] <= 1e-12 * (L + 1) * (1 + abs(t)):
+            l, m = lms[i]
+            ctx.fail(kind, "solid:scaled" if kind == "corr" else "utils.solid_harmonics:scaled",
+                     f"solid_harmonics({L}, (r,theta,phi)=({r!r},{t!r},{p!r})) row (l={l}, m={m}) = {float(S[i])!r}, {refname} {float(rows[i])!r} "
+                     f"(difference relative to r^l = {float(scale[i])!r}: {float(err[i])!r})",
+                     witness={"routine": "solid", "l_max": L, "r": r, "theta": t, "phi": p, "l": l, "m": m, "row": i},
+                     snippet=SNIP_VAR.format(fname=_FN["solid"], dps=50, pre="", call=f"fn({L}, np.array([[{r!r}, {t!r}, {p!r}]]))", index=f"[{i}, 0]", l=l, m=m, r=r,
+                                             t=t, p=p, j=0, want=_WANT["solid"], tol=float(1e-12 * (L + 1) * (1 + abs(t)) * scale[i]),
+                                             what=f"solid row (l={l}, m={m})") if kind == "oracle" else None)
+
+
+def _empty_inputs(ctx: Ctx, ut, kind):
+    """Zero points: every routine returns the empty array of the documented shape."""
+    e = np.zeros(0)
+    for name, call, shape in (("recursion", lambda: ut.generate_real_spherical_harmonics(3, e, e), (16, 0)),
+                              ("scipy", lambda: ut.generate_real_spherical_harmonics_scipy(3, e, e), (16, 0)),
+                              ("deriv", lambda: ut.generate_derivative_real_spherical_harmonics(3, e, e), (2, 16, 0)),
+                              ("solid", lambda: ut.solid_harmonics(3, np.zeros((0, 3))), (16, 0)),
+                              ("c2s", lambda: ut.convert_cart_to_sph(np.zeros((0, 3)), np.array([1.0, 2.0, 3.0])), (0, 3))):
+        ctx.count([kind, "empty", name], nontrivial=False, tag=f"variant:{name}:no-points")
+        try:
+            got = np.asarray(call())
+            if got.shape != shape:
+                ctx.fail(kind, f"variant:{name}:no-points" if kind == "corr" else f"utils.{_FN[name]}:no-points",
+                         f"{_FN[name]} on zero points returned shape {got.shape}, expected {shape}")
+        except Exception as ex:
+            ctx.tagc(f"variant:{name}:no-points:rejected({type(ex).__name__})")
+
+
+def _cross_routine_history(ctx: Ctx, ut, kind, mp=None):
+    """The routines after one another on shared arrays, in both orders, with results modified in place by the caller in
+    between: every answer against `ref` and bit for bit equal to the answer the same call gave in the other order."""
+    rg = ctx.rng
+    f32 = lambda x: float(np.float32(x))
+    t = [f32(rg.uniform(0.2, 2.9)), -f32(rg.uniform(3.4, 6.0)), f32(rg.uniform(6.5, 9.2))]
+    p = [f32(rg.uniform(0.2, 2.9)), -f32(rg.uniform(0.2, 2.9)), f32(rg.uniform(3.4, 6.0))]
+    rr = [f32(rg.uniform(0.3, 2.0)) for _ in t]
+    L = 3
+    calls = {"recursion": f"u.generate_real_spherical_harmonics({L}, A, Ap)", "scipy": f"u.generate_real_spherical_harmonics_scipy({L}, A, Ap)",
+             "deriv": f"u.generate_derivative_real_spherical_harmonics({L}, A, Ap)", "solid": f"u.solid_harmonics({L}, S)"}
+    pre = f"import grid.utils as u\nA = np.array({t!r}); Ap = np.array({p!r}); S = np.array({[[a, b, c] for a, b, c in zip(rr, t, p)]!r})"
+    if kind == "corr":
+        ref = _model_refs([dict(fn=f, steps=[dict(t=t, p=p, L=L, r=rr)]) for f in ("recursion", "deriv", "solid")])
+        refname = "model"
+    else:
+        ref, refname = _mp_refs(mp), "definition (50 digits)"
+    first = {}
+    for order in (["deriv", "solid", "scipy", "recursion"], ["recursion", "scipy", "solid", "deriv"], ["solid", "recursion", "deriv", "scipy"]):
+        ns = {"np": np, "u": ut}
+        exec(pre.split("\n", 1)[1], ns)
+        hist = [pre]
+        for name in order:
+            ctx.count([kind, "cross-routine", tuple(order), name], nontrivial=True, tag=f"variant:{name}:after-other-routines")
+            out = eval(calls[name], ns)
+            got = np.asarray(out, dtype=float).copy()
+            hist.append("R = " + calls[name] + "\nR[...] = 7.0   # the caller uses the result as its own")
+            try:
+                out[...] = 7.0
+            except Exception:
+                pass
+            key = f"variant:{name}:after-other-routines" if kind == "corr" else f"utils.{_FN[name]}:after-other-routines"
+            for j in range(len(t)):
+                want = ref("solid" if name == "solid" else "dY" if name == "deriv" else "Y", L, t[j], p[j], rr[j] if name == "solid" else None)
+                g = got[:, :, j] if name == "deriv" else got[:, j]
+                d, i = _maxdiff(np.asarray(want).ravel(), np.asarray(g).ravel()) if want is not None else (float("inf"), -1)
+                if not d <= 1e-11 * (L + 1) ** 2 * (1 + abs(t[j])) * max(1.0, rr[j] ** L):
+                    ctx.fail(kind, key, f"{_FN[name]} called after {order[:order.index(name)]} on the shared arrays returns {np.asarray(g).ravel()[i]!r} "
+                             f"at point {j}, flat entry {i}; {refname} {np.asarray(want).ravel()[i] if want is not None else None!r}",
+                             witness={"history": hist, "routine": name, "point": j, "entry": i})
+                    break
+            if name in first and not np.array_equal(first[name], got, equal_nan=True):
+                snippet = ("import warnings; warnings.filterwarnings('ignore')\nimport numpy as np\n" + pre + "\nfirst = np.array(" + calls[name] + ", dtype=float)\n"
+                           + "\n".join(hist[1:-1]) + "\nagain = np.array(" + calls[name] + ", dtype=float)\n"
+                           "assert np.array_equal(first, again, equal_nan=True), 'the answer depends on what was called (and modified) before: largest difference ' + repr(float(np.max(np.abs(first - again))))\n")
+                ctx.fail(kind, key, f"{_FN[name]} on the same arrays returns another answer after the calls {order[:order.index(name)]} whose results the "
+                         f"caller modified in place (largest difference {_maxdiff(first[name], got)[0]!r})",
+                         witness={"history": hist, "routine": name}, snippet=snippet if kind == "oracle" else None)
+            first.setdefault(name, got)
 
 
 # --------------------------------------------------------------------------------------
@@ -1081,7 +1568,9 @@ def corr(ctx: Ctx):
     # integer-valued arguments (called below as Python ints and np.int64)
     cases += [([1.0, -2.0, 3.0], 2.0, 1.0, 2.0, "int-valued"), ([0.0, 1.0, 0.0], 1.0, 0.0, 1.0, "int-valued"),
               ([2.0, 1.0, -1.0], 0.0, 3.0, 1.0, "int-valued"), ([2.0, 1.0, -1.0], 3.0, -2.0, 0.0, "int-valued")]
+    cases += _jacobian_threshold_cases(ctx)
     model = driver_batch(["C08.convDeriv " + " ".join(f2b(x) for x in d + [r, t, p]) for d, r, t, p, _ in cases])
+    genm = driver_batch(["C08.genConvDeriv " + " ".join(f2b(x) for x in d + [r, t, p]) for d, r, t, p, _ in cases])
     names = ("deriv_r", "deriv_theta", "deriv_phi", "r", "theta", "phi")
     fconv = ut.convert_derivative_from_spherical_to_cartesian
     for i, ((d, r, t, p, kind), a) in enumerate(zip(cases, model)):
@@ -1111,6 +1600,24 @@ def corr(ctx: Ctx):
             ctx.fail("corr", "convDeriv", f"convert_derivative_from_spherical_to_cartesian({d}, r={r!r}, theta={t!r}, phi={p!r}) = "
                      f"{impl.tolist()}, model {None if got is None else got.tolist()}",
                      witness={"routine": "convDeriv", "deriv": d, "r": r, "theta": t, "phi": p, "class": kind, "route": route})
+        gg = _rows(genm[i])
+        if gg is None or len(gg) != 3 or not all(close(x, y, rtol=1e-12, scale=scale) for x, y in zip(gg, impl)):
+            ctx.fail("corr", "genConvDeriv", f"convert_derivative_from_spherical_to_cartesian({d}, r={r!r}, theta={t!r}, phi={p!r}) = "
+                     f"{impl.tolist()}, definition generated from the source {None if gg is None else gg.tolist()} ({genm[i][:30]})",
+                     witness={"routine": "convDeriv", "deriv": d, "r": r, "theta": t, "phi": p, "class": kind, "route": route})
+        if i % 7 == 0:   # the vector handed out is the caller's: modified in place, then the same call again
+            first = np.array(fconv(*args), dtype=float)
+            res = fconv(*args)
+            try:
+                res[...] = 3.0
+            except Exception:
+                pass
+            again = np.array(fconv(*args), dtype=float)
+            ctx.tagc("convDeriv:result-modified")
+            if not np.array_equal(first, again, equal_nan=True):
+                ctx.fail("corr", "convDeriv:result-modified", f"convert_derivative_from_spherical_to_cartesian({d}, r={r!r}, theta={t!r}, phi={p!r}) returns "
+                         f"{again.tolist()} after the caller modified the previous result in place, {first.tolist()} before",
+                         witness={"routine": "convDeriv", "deriv": d, "r": r, "theta": t, "phi": p, "class": kind, "route": route})
 
     # -- container / dtype kinds, call routes, kinds of l_max, call histories, object identity: every answer vs the model
     variants = _variants(ctx)
@@ -1119,6 +1626,14 @@ def corr(ctx: Ctx):
     _corr_high_degree(ctx, ut)
     # -- convert_cart_to_sph: kinds of points / centre, call routes, radii from 1e-200 to 1e200, histories, identity
     _run_c2s(ctx, ut, "corr")
+    # -- round 3: the definitions generated from the source at Float; special points of a non-trivial frame through the
+    #    whole pipeline; exact translations to far centres; rows relative to r^l; zero points; the routines after one another
+    _corr_generated(ctx, ut, angs)
+    _special_point_pipeline(ctx, ut, "corr")
+    _far_centres(ctx, ut, "corr")
+    _scaled_solid(ctx, ut, "corr")
+    _empty_inputs(ctx, ut, "corr")
+    _cross_routine_history(ctx, ut, "corr")
 
 
 # --------------------------------------------------------------------------------------
@@ -1304,7 +1819,8 @@ def oracle(ctx: Ctx, budget: str):
             wp = float(mp.diff(lambda x: mp_ylm(mp, l, m, t, mp.mpf(p) + x), 0, h=mp.mpf(10) ** -15))
             for comp, want in ((0, wt), (1, wp)):
                 got = float(d[comp, row, 0])
-                if not abs(got - want) <= 1e-10 * max(1.0, abs(want)):
+                # the routine forms cos/sin(float(m) * theta) in double precision: the rounding of m * theta is part of the input
+                if not abs(got - want) <= (1e-10 + 1e-15 * (Ld + 1) ** 2 * abs(t)) * max(1.0, abs(want)):
                     cls = "principal" if 0 <= p <= PI else "outside-principal-range"
                     ctx.fail("oracle", f"utils.generate_derivative_real_spherical_harmonics:d{['theta', 'phi'][comp]}:{cls}",
                              f"generate_derivative_real_spherical_harmonics(l_max={Ld}, theta={t!r}, phi={p!r})[{comp}] row (l={l}, m={m}) = {got!r}, "
@@ -1405,6 +1921,16 @@ def oracle(ctx: Ctx, budget: str):
     _oracle_high_degree(ctx, ut, mp)
     # (j) convert_cart_to_sph inverts the parametrisation for every kind of points / centre, call route, radius, history
     _run_c2s(ctx, ut, "oracle", mp)
+    # (k) round 3: the true gradient from the thresholds of the derivative conversion on; special points of a non-trivial frame
+    #     through convert_cart_to_sph -> solid_harmonics / derivative routine; exact translations; rows relative to r^l;
+    #     the routines after one another with results modified by the caller
+    _oracle_gradient_near_thresholds(ctx, ut, mp, large)
+    _oracle_outside_near_pole(ctx, ut, mp, large)
+    _special_point_pipeline(ctx, ut, "oracle", mp)
+    _far_centres(ctx, ut, "oracle")
+    _scaled_solid(ctx, ut, "oracle", mp)
+    _empty_inputs(ctx, ut, "oracle")
+    _cross_routine_history(ctx, ut, "oracle", mp)
 
 
 def _oracle_point(ctx: Ctx, ut, mp, routine, L, t, p, r=None, lms=None):
@@ -1461,6 +1987,7 @@ def oracle_at(ctx: Ctx, failure):
             mp.mp.dps = 50
             _run_variants(ctx, ut, "oracle", _variants(ctx), _mp_refs(mp), "definition (50 digits)")
             _run_c2s(ctx, ut, "oracle", mp)
+            _cross_routine_history(ctx, ut, "oracle", mp)
         return
     routine = w.get("routine")
     num = lambda x: float({"inf": "inf", "-inf": "-inf", "nan": "nan"}.get(x, x)) if isinstance(x, str) else float(x)
